@@ -455,6 +455,14 @@ pub trait BinWrite {
         io::Write::write_all(self._bin_write_writer(), bytes).map_err(|e| self._bin_write_io_error(e))
     }
 
+    /// Flush any buffered output to the underlying file.
+    ///
+    /// This must be called when done writing to a buffered writer; data that is still in the buffer
+    /// when the writer is dropped gets written by `Drop`, where errors cannot be reported.
+    fn finish(&mut self) -> Result<(), Self::Err> {
+        io::Write::flush(self._bin_write_writer()).map_err(|e| self._bin_write_io_error(e))
+    }
+
     /// Writes a string, adding a null terminator by zero-padding up to a multiple of the given `block_size`.
     fn write_cstring(&mut self, s: &Encoded, block_size: usize) -> Result<(), Self::Err> {
         let mut to_write = s.clone();
